@@ -316,6 +316,8 @@ func genVariantsFor(id string) []string {
 		return gen.GoVariants
 	case "C17":
 		return gen.GoVariants
+	case "C07":
+		return []string{gen.Go, gen.GoOU, gen.TS}
 	}
 	return gen.AllVariants
 }
@@ -541,6 +543,8 @@ func genJudge(w *Worker, id string, o *obs, variants []string) {
 			w.Count("gen_runs", 1)
 			// conformance with the model (binding, not a verdict)
 			p := o.predict(m, in)
+			w.Count("gen_model_runs", 1)
+			w.Count("gen_model_steps", int64(p.Fetches+len(p.Reds)))
 			if v == gen.TS {
 				p = tsExpect(p)
 			}
